@@ -426,6 +426,31 @@ func runTxnProp(r *Run, prop string) {
 					break
 				}
 			}
+			// --- C06: a transaction is rejected for a duplicate only if its final state has one. The final state
+			// it would have had is computed by the RFC reference interpreter (which knows nothing of indexes);
+			// when the reference accepts the transaction and the resulting rows are duplicate-free, a
+			// constraint violation was not called for (transient duplicates are to be accepted).
+			if prop == "C06" && failed && classOf(*out.Results[len(out.Results)-1].Error) == "constraint violation" && out.Panic == "" &&
+				strings.Contains(out.Results[len(out.Results)-1].Details, "identical") { // rejected by an index check
+				acc := make([]bool, len(txns))
+				for k := range impl {
+					acc[k] = !hasErr(impl[k].out.Results)
+				}
+				acc[len(txns)-1] = true // speculatively
+				var spec []rfcOut
+				if err := r.Mdl.Call(map[string]interface{}{"fn": "rfcHistory", "model": ts.modelJSON(), "txns": txns, "accepted": acc}, &spec); err == nil && len(spec) == len(txns) {
+					sp := spec[len(spec)-1]
+					if !sp.Rejected && !sp.Skipped && uniquenessOracle(ts, sp.Rows) == "" {
+						r.Case("txn", key)
+						cs["txns"] = shrinkHistory(ts, txns, prop)
+						cs["shrunk"] = true
+						r.Violation("txn", cs, "constraint violation: "+out.Results[len(out.Results)-1].Details, dumpCanon(sp.Rows), true,
+							"a transaction whose final state holds no duplicate index values (and which the RFC reference accepts) was rejected with a constraint violation", "")
+						bad = true
+						break
+					}
+				}
+			}
 			// --- C06: uniqueness after every commit
 			if why := uniquenessOracle(ts, after); why != "" && prop == "C06" {
 				r.Case("txn", key)
